@@ -69,19 +69,6 @@ Proof.
   - intros H. apply expire_fold_none. exact H.
 Qed.
 
-(* ... in every attempt: attempt k of a commit() whose queue is ops.  `scribble k` is whatever an earlier attempt may have
-   left in accumulators that are NOT rebuilt (or are edited after being built); it is irrelevant exactly when both counted
-   facts hold. *)
-Definition attempt_input (per_attempt kept : bool) (scribble : nat -> list path * list path * option Z)
-                         (ops : list txop) (k : nat) : list path * list path * option Z :=
-  if per_attempt && kept then gen_partition ops else match k with O => gen_partition ops | S _ => scribble k end.
-
-Lemma every_attempt_whole_queue : forall scribble ops k,
-  attempt_input gen_partition_per_attempt gen_partition_args_kept scribble ops k = gen_partition ops.
-Proof. intros scribble ops k. reflexivity. Qed.
-
-Lemma retried_attempt_needs_facts : exists scribble ops k,
-  attempt_input false true scribble ops k <> gen_partition ops.
-Proof.
-  exists (fun _ => ([], [], None)), [TDelete [(0, 1)%Z]], 1%nat. vm_compute. discriminate.
-Qed.
+(* The two counted source facts, as computed on the current source. *)
+Lemma attempt_facts_hold : gen_partition_per_attempt = true /\ gen_partition_args_kept = true.
+Proof. split; reflexivity. Qed.
